@@ -865,7 +865,7 @@ def build(ctx):
     ctx.trust('induction schema over the nesting depth (finite, acyclic nesting): the step is discharged with the hypothesis instantiated at '
               'the witness indices of cmparr; the base case D = 0 is the same obligations on scalars')
     ctx.trust('universe:handles model object identity; None / True / False are singletons; strings enter only through an order-embedding')
-
+    ctx.guarded('dictable.sort.byval', lambda: byval_section(ctx))
 
 def rp(kind):
     def mk(model):
@@ -873,3 +873,73 @@ def rp(kind):
         d.update(model)
         return d
     return mk
+
+
+# ------------------------------------------------------------------------------------------------ dictable.sort(**byval): the rank expression
+def byval_section(ctx):
+    """`dicts = {k: dict(zip(vals, range(len(vals)))) ...}` and `keys = [[d.get(row[k], len(d)) for k, d in dicts.items()] for row in self]`:
+    a listed value is ranked by its position in the given order, an unlisted one by the number of listed values, i.e. after all of them."""
+    import ast as _ast
+    from z3 import Function, IntSort, BoolSort, Int, If, And, Implies, BoolVal, DeclareSort, Const
+    from pyvc.front import walk_no_defs, SelectorError
+    from pyvc.symex import Exec, State
+    from pyvc.sv import SV, I
+    m = ctx.mod('_dictable')
+    fdef = m.func('dictable.sort')
+    gets = [c for c in walk_no_defs(fdef) if isinstance(c, _ast.Call) and isinstance(c.func, _ast.Attribute) and c.func.attr == 'get' and len(c.args) == 2]
+    zips = [c for c in walk_no_defs(fdef) if isinstance(c, _ast.Call) and _ast.unparse(c.func) == 'dict' and c.args and _ast.unparse(c.args[0]).startswith('zip(')]
+    if len(gets) != 1 or len(zips) != 1:
+        raise SelectorError('dictable.sort: expected one dict(zip(vals, range(len(vals)))) and one d.get(row[k], len(d))')
+    CellS = DeclareSort('Cell')
+    LISTED = Function('listed', CellS, BoolSort())
+    POS = Function('position_in_order', CellS, IntSort())
+    NV = Int('NVALS')
+
+    class Rank:
+        def call(self, ex, st, e, fname, args, kwargs):
+            if fname == 'len' and len(args) == 1 and args[0].kind == 'tablerows':
+                return I(Int('NROWS'))
+            if fname == 'len' and len(args) == 1 and args[0].kind in ('orderlist', 'rankdict'):
+                ex.use('model:an explicit value order is a list of NVALS distinct values; dict(zip(vals, range(len(vals)))) has NVALS keys')
+                return I(NV)
+            if fname == 'zip' and len(args) == 2 and args[0].kind == 'orderlist' and args[1].kind == 'range':
+                ex.oblige(st, 'byval.positions_start_at_0_and_count_the_values', And(args[1].lo == 0, args[1].step == 1, args[1].n == NV), kind='post')
+                return SV('zippedorder')
+            if fname == 'dict' and len(args) == 1 and args[0].kind == 'zippedorder':
+                ex.use('axiom:dict(zip(vals, range(len(vals)))) maps each listed value to its position')
+                return SV('rankdict')
+            return NotImplemented
+
+        def method(self, ex, st, e, recv, mname, args, kwargs):
+            if recv.kind == 'rankdict' and mname == 'get' and len(args) == 2 and args[0].kind == 'cell' and args[1].kind == 'int':
+                return I(If(LISTED(args[0].t), POS(args[0].t), args[1].t))
+            return NotImplemented
+
+        def subscript(self, ex, st, e, recv, idx):
+            if recv.kind == 'rowobj':
+                return SV('cell', Const('CELL', CellS))
+            return NotImplemented
+
+    th = [Rank()]
+    # 1. the rank dictionary
+    ex = Exec(m, th, name='dictable.sort.byval')
+    st = State(env={'vals': SV('orderlist')})
+    st.pc += [NV >= 0]
+    d = ex.eval(st, zips[0])
+    # 2. the rank of a cell
+    g = gets[0]
+    dname = _ast.unparse(g.func.value)
+    st2 = State(env={dname: d, 'row': SV('rowobj'), 'k': SV('colname'), 'self': SV('tablerows')})
+    st2.pc += [NV >= 0]
+    # names the rank expression reads that are bound earlier in the function (e.g. a hoisted default) are evaluated from their assignment
+    for nm in [n.id for n in _ast.walk(g) if isinstance(n, _ast.Name) and n.id not in st2.env]:
+        defs = [a for a in walk_no_defs(fdef) if isinstance(a, _ast.Assign) and len(a.targets) == 1 and isinstance(a.targets[0], _ast.Name) and a.targets[0].id == nm]
+        if len(defs) == 1:
+            st2.env[nm] = ex.eval(st2, defs[0].value)
+    r = ex.eval(st2, g)
+    ctx.absorb(ex)
+    c = Const('CELL', CellS)
+    hy = [NV >= 0, Implies(LISTED(c), And(0 <= POS(c), POS(c) < NV))]
+    ctx.post('dictable.sort.byval.listed_value_ranked_by_its_position', hy + [LISTED(c)], r.t == POS(c))
+    ctx.post('dictable.sort.byval.unlisted_value_ranked_after_every_listed_one', hy + [z3.Not(LISTED(c))], And(r.t == NV, r.t > NV - 1))
+    ctx.trust('dictable.sort(**byval): only the rank expression is symbolically executed; that rows are then ordered by these ranks is the by-key path proved above')
